@@ -5,6 +5,7 @@ A prompt contains the property's text, the worktree to work in and one-line summ
 (so that the new change differs) - nothing from the verification machinery."""
 import json, os, re, sys, glob
 rnd, spre, bpre = sys.argv[1], sys.argv[2], sys.argv[3]
+style = sys.argv[4] if len(sys.argv) > 4 else "bold"
 props = [json.loads(l) for l in open('/verif/properties.jsonl')]
 for p in props:
     pid = p["id"]
@@ -59,7 +60,7 @@ Property whose implementation you should refactor WITHOUT changing behaviour (th
 Quantifier: {quant}
 -----
 
-Task: find the code in {bw}/src that implements this property, and produce THREE independent, behaviour-preserving refactors of it, each as its own patch against the pinned tree. Each must be an edit a maintainer makes for structure or readability and a reviewer accepts as 'no functional change'. This is the SECOND round: be bolder and more structural than simple local rewrites. Ideas: split a long function into two or three helpers (or a small private struct with methods) and/or move them to another module; replace a boolean flag by an enum or by early returns; change a loop into iterator adapters (or the reverse) preserving order and multiplicity; replace a `match` by a lookup table/`HashMap`-free array plus function pointers only if order is preserved; rename several functions, fields and locals at once; reorder independent statements and match arms; convert `Option`-chains to `?` with a helper returning Option; introduce a newtype or type alias; pass a struct instead of several parameters; make a private helper generic; replace `unwrap_or` by `match`; turn a method into a free function; swap `if a {{x}} else {{y}}` polarity; introduce a `const`; add tracing behind a constant-false flag or an unused statistics counter. Each refactor must touch the code that is central to the property above (not unrelated files), should change between 15 and 70 lines, and the three should differ in kind from each other and from these earlier ones:
+Task: find the code in {bw}/src that implements this property, and produce THREE independent, behaviour-preserving refactors of it, each as its own patch against the pinned tree. Each must be an edit a maintainer makes for structure or readability and a reviewer accepts as 'no functional change'. """ + ("This is the SECOND round: be bolder and more structural than simple local rewrites. Ideas: split a long function into two or three helpers (or a small private struct with methods) and/or move them to another module; replace a boolean flag by an enum or by early returns; change a loop into iterator adapters (or the reverse) preserving order and multiplicity; rename several functions, fields and locals at once; reorder independent statements and match arms; convert `Option`-chains to `?` with a helper returning Option; introduce a newtype or type alias; pass a struct instead of several parameters; make a private helper generic; replace `unwrap_or` by `match`; turn a method into a free function; swap `if a {x} else {y}` polarity; introduce a `const`; add tracing behind a constant-false flag or an unused statistics counter. " if style == "bold" else "Keep them the size of an everyday clean-up commit (5 to 40 changed lines): extract a helper function or inline one, replace an `if let` chain by `match` (or the reverse), replace a `for` loop by `while let` or by iterator adapters that preserve order and multiplicity, rename fields / locals / private functions, reorder independent statements, introduce a local variable or a named constant, move a guard into a small predicate function, replace `x != A` by `!matches!(x, A)`, respell `.entry().or_insert_with()` as `if !contains_key { insert }`, add an equivalent early return, add logging to stderr under a constant-false debug flag, add an unused statistics counter, merge duplicated match arms with an or-pattern, swap the polarity of an if/else. ") + f"""Each refactor must touch the code that is central to the property above (not unrelated files), should differ from each other in kind, and the three should differ in kind from each other and from these earlier ones:
 """ + "\n".join(prevb) + f"""
 
 The property must hold exactly as before for ALL inputs: do not change any observable behaviour, error message, ordering or output.
